@@ -24,6 +24,8 @@
 #include "disk_interface.h"
 #include "graph.h"
 #include "state.h"
+#include "lexer.h"
+#include "eval_env.h"
 #include "util.h"
 
 #include "json.h"
@@ -191,6 +193,50 @@ static string Depfile(const string& in) {
   return string("{\"ok\":true,\"outs\":") + JBytesList(outs) + ",\"ins\":" + JBytesList(ins) + "}";
 }
 
+// -- Lexer (spec/Lexer.tla) ---------------------------------------------------------------------
+struct AngleEnv : public Env {
+  string LookupVariable(StringPiece var) override { return "<" + var.AsString() + ">"; }
+};
+static string LexResult(bool ok, const vector<string>& strs, const string& next) {
+  if (!ok) return "{\"ok\":false,\"strs\":[],\"next\":\"\"}";
+  return string("{\"ok\":true,\"strs\":") + JBytesList(strs) + ",\"next\":" + JEsc(next) + "}";
+}
+static void LexStart(Lexer* lx, const string& in) {
+  lx->Start("in", in);
+  lx->manifest_version_major = 1;
+  lx->manifest_version_minor = 14;
+}
+static string LexValue(const string& in) {
+  Lexer lx;
+  LexStart(&lx, in);
+  AngleEnv env;
+  EvalString es;
+  string err;
+  if (!lx.ReadVarValue(&es, &err)) return LexResult(false, {}, "");
+  vector<string> strs{es.Evaluate(&env)};
+  return LexResult(true, strs, Lexer::TokenName(lx.ReadToken()));
+}
+static string LexPaths(const string& in) {
+  Lexer lx;
+  LexStart(&lx, in);
+  AngleEnv env;
+  vector<string> strs;
+  string err;
+  for (;;) {
+    EvalString es;
+    if (!lx.ReadPath(&es, &err)) return LexResult(false, {}, "");
+    if (es.empty()) break;
+    strs.push_back(es.Evaluate(&env));
+  }
+  return LexResult(true, strs, Lexer::TokenName(lx.ReadToken()));
+}
+static string LexExp(const JV& e) {
+  if (!e["ok"].boolean()) return LexResult(false, {}, "");
+  vector<string> strs;
+  for (auto& s : e["strs"].a) strs.push_back(Bytes(s));
+  return LexResult(true, strs, e["next"].str());
+}
+
 int main(int argc, char** argv) {
   if (argc < 2) return 2;
   string mode = argv[1];
@@ -227,6 +273,16 @@ int main(int argc, char** argv) {
         if (drift) ++bad;
         fprintf(out, "{\"names\":%s,\"sp\":%s,\"nl\":%s,\"out\":%s,\"drift\":%s,\"problem\":%s}\n", JDump(j["names"]).c_str(),
                 JBytes(a).c_str(), JBytes(c).c_str(), JBytes(b).c_str(), drift ? "true" : "false", JEsc(problem).c_str());
+        continue;
+      } else if (fn == "lex") {
+        // spec/Lexer.tla: value context and path context of the real Lexer
+        string in = Bytes(j["in"]);
+        string gv = LexValue(in), gp = LexPaths(in);
+        string ev = LexExp(j["value"]), ep = LexExp(j["paths"]);
+        if (gv != ev || gp != ep) {
+          ++bad;
+          fprintf(out, "{\"in\":%s,\"exp\":{\"value\":%s,\"paths\":%s},\"got\":{\"value\":%s,\"paths\":%s},\"problem\":\"\"}\n", JBytes(in).c_str(), ev.c_str(), ep.c_str(), gv.c_str(), gp.c_str());
+        }
         continue;
       } else if (fn == "depfile") {
         got = Depfile(Bytes(j["in"]));
